@@ -99,3 +99,35 @@ for _name, _k in (("implication", 2), ("guarded", 2), ("three", 3)):
             vc.ensure("smoothing_nodes_are_x_or_not_x", good and len(fresh) >= 1)
             vc.ensure("formula_unchanged_under_every_assignment", _eval(vc, g_in, root, val) == before)
         obligation(f"C20.logic.smooth.{_name}.ids{''.join(map(str, _ids))}", "C20", [f"{LG}:LogicalCircuit.smooth", f"{LG}:LogicalCircuit.node_scope"])(_h)
+
+
+# A disjunction whose inputs are listed in EVERY order, among them a bare literal immediately followed by an input that also misses a variable
+# (smooth() edits the list it iterates over: an input placed where the iteration skips its neighbour leaves that neighbour un-smoothed).
+#    x_a  OR  (NOT x_a AND x_b)  OR  (NOT x_a AND NOT x_b AND x_c)
+for _ids in ((0, 1, 2), (1, 0, 2), (2, 1, 0)):
+    for _order in itertools.permutations(range(3)):
+        def _h(vc, _ids=_ids, _order=_order):
+            mk = _nodes(vc)
+            a, b, c = _ids
+            xa, na, xb, nb, xc = mk("LiteralNode", a), mk("NegatedLiteralNode", a), mk("LiteralNode", b), mk("NegatedLiteralNode", b), mk("LiteralNode", c)
+            c1, c2, d = mk("ConjunctionNode"), mk("ConjunctionNode"), mk("DisjunctionNode")
+            kids = [xa, c1, c2]
+            ins = {c1: [na, xb], c2: [na, nb, xc], d: [kids[i] for i in _order]}
+            nodes = [xa, na, xb, nb, xc, c1, c2, d]
+            lc = vc.new(f"{LG}:LogicalCircuit", list(nodes), {k: list(v) for k, v in ins.items()}, [d])
+            val = {i: vc.bool(f"value_of_x{i}") for i in range(3)}
+            before = _eval(vc, {k: list(v) for k, v in ins.items()}, d, val)
+            vc.call((lc, "smooth"))
+            g_in = lc.fields["_in_nodes"]
+            (root,) = list(lc.fields["_outputs"])
+            vc.ensure("root_kept", root is d)
+            ok = True
+            for n in list(lc.fields["_nodes"]):
+                if n.cls.name == "DisjunctionNode":
+                    sc = _scope(g_in, n)
+                    ok = ok and all(_scope(g_in, k) == sc for k in g_in.get(n, []))
+            vc.ensure("every_disjunction_is_smooth", ok)
+            vc.ensure("root_still_has_three_inputs", len(list(g_in.get(d, []))) == 3)
+            vc.ensure("formula_unchanged_under_every_assignment", _eval(vc, g_in, root, val) == before)
+        obligation(f"C20.logic.smooth.literal_among_conjunctions.ids{''.join(map(str, _ids))}.order{''.join(map(str, _order))}", "C20",
+                   [f"{LG}:LogicalCircuit.smooth", f"{LG}:LogicalCircuit.node_scope"])(_h)
